@@ -256,3 +256,16 @@ Definition op_aggregate (E : env) (keys : list var) (aggs : list (var * agg)) (s
       let gs' := match gs, keys with [], [] => [([], [])] | _, _ => gs end in
       oks (map (group_row E keys aggs) gs')
   end.
+
+(* ---------- EXISTS { subquery } ----------
+   evaluator.rs, Expression::Exists(Subquery) via exists_subquery_has_rows: only
+   the first item of the subquery's stream is pulled; `Ok(has_rows)` becomes a
+   boolean, and an error becomes NULL (`Err(_) => Value::Null`), because
+   evaluate_expression_value returns a Value and cannot fail.  This is the code
+   as it is (known finding K-C22-exists): the enclosing WHERE then drops the row. *)
+Definition exists_subquery_value (sub : stream) : value :=
+  match sub with
+  | [] => VBool false
+  | Ok _ :: _ => VBool true
+  | Err _ :: _ => VNull
+  end.
